@@ -247,42 +247,12 @@ impl StateMachine<'_> {
             // The header is written directly to the writer: first flush lines of the
             // previous file which have been painted but not yet emitted.
             self.painter.emit()?;
-            let format_label = |label: &str| {
-                if !label.is_empty() {
-                    format!("{label} ")
-                } else {
-                    "".to_string()
-                }
-            };
-            let format_file = |file| match (
-                self.config.hyperlinks,
-                utils::path::absolute_path(file, self.config),
-            ) {
-                (true, Some(absolute_path)) => features::hyperlinks::format_osc8_file_hyperlink(
-                    absolute_path,
-                    None,
-                    file,
-                    self.config,
-                ),
-                _ => Cow::from(file),
-            };
-            let label = format_label(&self.config.file_modified_label);
-            let mut name =
-                get_repeated_file_path_from_diff_line(&self.diff_line).unwrap_or_default();
-            // As for the paths taken from the ---/+++ lines.
-            utils::path::relativize_path_maybe(&mut name, self.config);
-            let line = format!("{}{}", label, format_file(&name));
             // The header of this file has been written now: a later call (e.g. at the `diff`
             // line of the next file, after a commit line in between) must not write it again.
             self.handled_diff_header_header_line_file_pair
                 .clone_from(&self.current_file_pair);
-            write_generic_diff_header_header_line(
-                &line,
-                &line,
-                &mut self.painter,
-                &mut self.mode_info,
-                self.config,
-            )
+            // (names, "binary file" marker, file-transformation as for every other header)
+            self._handle_diff_header_header_line(self.source == Source::DiffUnified)
         } else if !self.config.color_only
             && self.should_handle_diff_header()
             && self.handled_diff_header_header_line_file_pair != self.current_file_pair
